@@ -12,7 +12,7 @@ from harness import build, world, clock, spside, xmlmut
 
 PROPERTY = 'C17'
 LEVEL = 'exploration'
-RULE = ('idp-confidentiality: Hypothesis identities of 12-24 character random tokens (names of >= 5 characters from the shipped maps) x sign_response x sign_assertion x '
+RULE = ('metadata-reload: one long-lived IdP whose SP metadata source is re-loaded with another / a first / no encryption certificate between two responses (enumerated); idp-confidentiality: Hypothesis identities of 12-24 character random tokens (names of >= 5 characters from the shipped maps) x sign_response x sign_assertion x '
         '{encrypt_assertion, encrypted advice attributes (PEFIM)} x self-contained namespaces x SP encryption certificates {[2],[2,3],[3,2]} x certificate named by the caller {none, the first or second of the SP, a third party}; '
         'sp-equal-validation: fault in {none, content edit after signing, wrong signing key, unsigned, expired Conditions / SCD / session, not-yet-valid, foreign audience, two '
         'restrictions, SCD InResponseTo other/unknown, unknown InResponseTo, foreign recipient with conv_info, XSW construction} x SP options x allow_unsolicited x encryption for the '
@@ -273,6 +273,79 @@ def run_advice(case):
     return 'advice|%s|%s' % (f, v[0]), True
 
 
+def reload_cases():
+    out = []
+    for first in (None, 2, 3):
+        for second in (None, 2, 3, 4):
+            for warm in (True, False):
+                for mode in ('assertion', 'advice'):
+                    if first != second:
+                        out.append({'first': first, 'second': second, 'warm': warm, 'mode': mode})
+    return out
+
+
+def run_reload(case):
+    """one long-lived IdP; the SP's metadata source is re-loaded with another encryption certificate (or none / one for the first time) between two
+    responses: each response is protected for the certificate the metadata holds at that moment"""
+    import os
+    from saml2_tophat import saml
+    world.install_inprocess_tool()
+    clock.install()
+    clock.set_now(NOW)
+    path = os.path.join(os.getcwd(), 'sp-md-reload-%d.xml' % os.getpid())
+
+    def write(k):
+        keys = [('signing', 0)] + ([('encryption', k)] if k is not None else [])
+        with open(path, 'w') as f:
+            f.write(build.entity_xml({'entityid': spside.SP, 'sp': {'keys': keys, 'acs': [(world.POST, spside.ACS_POST, 0, True)]}}))
+    write(case['first'])
+    conf = world.idp_conf(dict(world.DEFAULT_IDP), [])
+    conf['metadata'] = {'local': [path]}
+    idp = world.make_idp(conf)
+    secret = 'Tsecretvalue%s' % ('Q' * 12)
+
+    def answer():
+        kw = dict(in_response_to='id-req-1', destination=spside.ACS_POST, sp_entity_id=spside.SP, name_id=saml.NameID(format=saml.NAMEID_FORMAT_PERSISTENT, text='Nsecretsubject0001'),
+                  authn={'class_ref': build.PASSWORD, 'authn_auth': 'x'}, sign_response=True)
+        if case['mode'] == 'assertion':
+            kw['encrypt_assertion'] = True
+        else:
+            kw.update(encrypted_advice_attributes=True, pefim=True)
+        return str(idp.create_authn_response({'givenName': [secret]}, **kw))
+
+    def judge(xml, k, when):
+        if k is None:
+            return      # nothing to encrypt for: the statement is about SPs that have an encryption certificate
+        if secret in xml or not has_encrypted(xml):
+            raise Violation('cleartext-leak', '%s: the SP metadata holds encryption key %d, the response carries the attribute value in clear / no EncryptedData' % (when, k))
+        cur = xml
+        for _ in range(3):
+            if not has_encrypted(cur):
+                break
+            nxt = build.decrypt(cur, k)
+            if nxt is None:
+                openers = [o for o in range(10) if build.decrypt(cur, o) is not None]
+                raise Violation('not-decryptable-by-sp', '%s: the response cannot be opened with the key the metadata holds now (pool %d); keys that open it: %r' % (when, k, openers))
+            cur = nxt
+        if secret not in cur:
+            raise Violation('plaintext-incomplete', '%s: decrypted response lacks the asserted value' % when)
+    if case['warm']:
+        try:
+            judge(answer(), case['first'], 'before the reload')
+        except Violation:
+            raise
+        except Exception:
+            pass
+    write(case['second'])
+    idp.metadata.load('local', path)
+    try:
+        xml = answer()
+    except Exception as e:
+        return 'reload|raises', True
+    judge(xml, case['second'], 'after the metadata was re-loaded (encryption key %r -> %r%s)' % (case['first'], case['second'], ', one response before' if case['warm'] else ''))
+    return 'reload|%s|%s' % (case['mode'], 'warm' if case['warm'] else 'cold'), True
+
+
 def undecryptable_cases():
     out = []
     for key in (4, 5, 9):
@@ -302,4 +375,5 @@ def parts(tier):
     return [Part('idp-confidentiality', run_idp, strategy=idp_strategy, examples=400 if quick else 20000),
             Part('sp-equal-validation', run_sp, strategy=sp_strategy, examples=700 if quick else 30000),
             Part('sp-encrypted-advice', run_advice, strategy=advice_strategy, examples=300 if quick else 10000),
-            Part('undecryptable', run_undecryptable, cases=undecryptable_cases, exhaustive=True)]
+            Part('metadata-reload', run_reload, cases=reload_cases, exhaustive=True),
+        Part('undecryptable', run_undecryptable, cases=undecryptable_cases, exhaustive=True)]
